@@ -1213,6 +1213,9 @@ func (g *c09Gen) flagViolations(t ast.Type, a *c09Arg) {
 
 var c09RuleRe = regexp.MustCompile(`^  - (\w+): \{ by_name: (\w+)\.(\w+)(?:, as: (\w+))?(?:, true_as: (\w+), false_as: (\w+))? \}$`)
 
+var c09MergeRe = regexp.MustCompile(`^  - merge_into: \{ source: (\w+), destination: (\w+), under_path: ([\w.]+)(?:, exclude_options: \[([\w, ]*)\])? \}$`)
+var c09OmitRe = regexp.MustCompile(`^  - omit: \{ by_name: (\w+)\.(\w+) \}$`)
+
 func c09StructAt(d *Defs, def string, path []string) *Src {
 	cur := d.lookup(def)
 	for _, name := range path {
@@ -1251,6 +1254,39 @@ func c09ExpectedTargets(d *Defs, veneers string) map[string]map[string]map[strin
 		}
 	}
 	for _, line := range strings.Split(veneers, "\n") {
+		if mm := c09MergeRe.FindStringSubmatch(line); mm != nil {
+			src, dst := out[mm[1]], out[mm[2]]
+			if src == nil || dst == nil {
+				continue
+			}
+			prefix := strings.Split(mm[3], ".")
+			excluded := map[string]bool{}
+			for _, x := range strings.Split(mm[4], ",") {
+				excluded[strings.TrimSpace(x)] = true
+			}
+			names := make([]string, 0, len(src))
+			for name := range src {
+				names = append(names, name)
+			}
+			sort.Strings(names)
+			for _, name := range names {
+				if excluded[name] {
+					continue
+				}
+				moved := map[string][]string{}
+				for arg, p := range src[name] {
+					moved[arg] = append(append([]string{}, prefix...), p...)
+				}
+				dst[name] = moved
+			}
+			continue
+		}
+		if mm := c09OmitRe.FindStringSubmatch(line); mm != nil {
+			if t := out[mm[1]]; t != nil {
+				delete(t, mm[2])
+			}
+			continue
+		}
 		m := c09RuleRe.FindStringSubmatch(line)
 		if m == nil {
 			continue
@@ -1364,6 +1400,20 @@ func c09DeepVeneers(d *Defs, r *rng) string {
 			break
 		}
 		cur = next
+	}
+	if r.chance(40) && len(chain) == 3 {
+		// the same flattening through merge_into: every level of the chain merged into the root
+		// builder under its member path (1, 2 and 3 segments), the root's own option omitted
+		var blds []string
+		objs := []string{"Config", "Display", "Legend"}
+		for i, obj := range objs {
+			rule := fmt.Sprintf("  - merge_into: { source: %s, destination: Widget, under_path: %s", obj, strings.Join(chain[:i+1], "."))
+			if i+1 < len(chain) {
+				rule += fmt.Sprintf(", exclude_options: [%s]", chain[i+1])
+			}
+			blds = append(blds, rule+" }")
+		}
+		return "language: all\npackage: %PKG%\nbuilders:\n" + strings.Join(blds, "\n") + "\noptions:\n  - omit: { by_name: Widget." + chain[0] + " }\n"
 	}
 	for i, opt := range chain {
 		rule := "struct_fields_as_options"
